@@ -224,6 +224,8 @@ func main() {
 	res.Counters["expected-panics"] = st.ExpPanics
 	res.Counters["observers-registered-after-serving-in-another-world"] = st.ObserverReuse
 	res.Counters["late-type-round-trips"] = st.LateRoundTrips
+	res.Counters["stats-comparisons-around-rejected-calls"] = st.RejectedStatsCmp
+	res.Counters["standing-filters-with-prior-batch-call"] = st.FilterSpareBatch
 	res.Counters["relation-lists-reused-by-another-world"] = st.RelListsShared
 	res.Counters["stats-calls-inside-callbacks"] = st.StatsInCallback
 	res.Counters["running-batch-filter-reused-inside-callback"] = st.FilterReuse
